@@ -7,7 +7,7 @@ from vf.engine import Violation, InvalidCase
 from vf.fixtures import CompA, CompB, CompC, CompD, CompF, check, sized_lists, wone_of
 
 PROPERTY = "C13"
-BUDGET = {"quick": 1600, "thorough": 5000}
+BUDGET = {"quick": 4000, "thorough": 12000}
 RULE = ("Population histories (add with component subset of {A,B,F} - F has falsy instances - and tag in {0,1,2,7}, remove, "
         "re-tagging a resident agent, a resident agent gaining/losing a component) of <= 8 agents in a plain "
         "environment or a GridWorld, interleaved with queries: template of 0-3 types from {A,B,C,D (nobody has it)} x tag in "
@@ -42,6 +42,18 @@ def run_case(case):
     n_created = 0
     nontrivial = False
     labels = set()
+    env2 = None
+    if len(case["ops"]) % 2:
+        # a second model whose environment holds agents with the SAME ids (all component types, tag 7), alive throughout:
+        # environments are independent of each other
+        model2 = Model(seed=1)
+        env2 = model2.environment
+        for i in range(4):
+            a2 = Agent(f"g{i}", model2, tag=7)
+            for t in TYPES[:3]:
+                a2.add_component(t(a2, model2))
+            env2.add_agent(a2)
+        labels.add("second-environment-alive")
     for k, op in enumerate(case["ops"]):
         where = f"after op {k} {op}"
         if op["op"] == "add":
@@ -204,6 +216,10 @@ def run_case(case):
             raise InvalidCase(op)
     if CAP > 64:
         labels.add("population>64")
+    if env2 is not None:
+        got2 = ([a.id for a in env2.get_agents(TYPES[0], tag=7)], [a.id for a in env2.get_agents(TYPES[1], TYPES[2])], env2.get_agents(tag=3))
+        if got2 != (["g0", "g1", "g2", "g3"], ["g0", "g1", "g2", "g3"], []):
+            raise Violation("other-environment-disturbed", f"a second environment holding g0..g3 (all components, tag 7) answers its queries with {got2}")
     return {"nontrivial": nontrivial, "labels": sorted(labels) + (["grid"] if grid else ["plain"])}
 
 
@@ -218,8 +234,13 @@ def strategy(tier):
     from vf.fixtures import near_pow2
     crowd = near_pow2(33, 130).flatmap(lambda n: st.fixed_dictionaries({
         "seed": st.integers(0, 50), "grid": st.sampled_from([False, False, True]), "cap": st.just(n + 5),
-        "ops": st.builds(lambda first, rest: first + rest, st.lists(add, min_size=n, max_size=n),
-                         sized_lists(wone_of(toggle, toggle, retag, rem, q, q), 3, 8))}))
+        # after the crowd has joined: components gained / lost WITHOUT the scheduler call (several agents, so that both
+        # directions occur), then queries for exactly those types and for the position component, then a random tail
+        "ops": st.builds(lambda first, t, ks, tag, rest: first + [{"op": "toggle", "k": k_, "t": t, "paired": False} for k_ in ks] +
+                         [{"op": "query", "tmpl": [t], "tag": None, "omit_tag": True}, {"op": "query", "tmpl": [4], "tag": tag, "omit_tag": tag is None},
+                          {"op": "query", "tmpl": [t, 4], "tag": None, "omit_tag": False}] + rest,
+                         st.lists(add, min_size=n, max_size=n), st.integers(0, 2), st.lists(st.integers(0, 140), min_size=3, max_size=3),
+                         st.sampled_from([None, 1, 7]), sized_lists(wone_of(toggle, toggle, retag, rem, q, q), 2, 6))}))
     small = _small(add, rem, retag, toggle, q)
     return wone_of(*([small] * 14 + [crowd]))
 
